@@ -1025,6 +1025,7 @@ func c13Surroundings(c *Check) {
 		c.SawFunc(f)
 	}
 	c05ADPerServer(c, "R5d") // DANE believes TLSA / address answers exactly as far as their AD bit goes
+	c13NoTruncatedAnswer(c, "R5e")
 	c.Rule("R5c", "extended resolver: an AuthenticatedData flag read inside a loop over the answers of a response belongs to that same response", 2)
 	pk := p.Pkg("framework/dns")
 	if pk == nil {
@@ -1078,4 +1079,67 @@ func fmtInts(v []int64) string {
 		s += itoa(int(x))
 	}
 	return s + "}"
+}
+
+
+// c13NoTruncatedAnswer: a reply with the TC bit is not the RRset – its answer section may be empty or cut – and AD may
+// still be set. "Authenticated, no TLSA records" is exactly what DANE reads as proof that the MX publishes none: the
+// message goes out without TLS although records exist (four full-certificate records do not fit into 4096 bytes).
+// In exchange(), in the world "the reply is truncated", no path hands that reply on.
+func c13NoTruncatedAnswer(c *Check, rule string) {
+	c.Rule(rule, "extended resolver: a truncated reply (TC bit) is never handed on as the answer – evaluated in the world `resp.Truncated`, every path from an exchange to a return of its response passes another exchange (a retry over TCP) or ends in an error", 1)
+	r := c.need(rule, "framework/dns", "ExtResolver", "exchange")
+	if r == nil {
+		return
+	}
+	info := r.Info
+	n := 0
+	msg := ""
+	for _, pt := range r.F.Points() {
+		as, ok := pt.Node().(*ast.AssignStmt)
+		if !ok || len(as.Rhs) != 1 || len(as.Lhs) < 2 {
+			continue
+		}
+		call, ok := ast.Unparen(as.Rhs[0]).(*ast.CallExpr)
+		if !ok || !containsFold(methodName(call), "exchange") {
+			continue
+		}
+		resp := objOf(info, as.Lhs[0])
+		if resp == nil {
+			continue
+		}
+		n++
+		errObj := errVarAssigned(info, as, call)
+		world := r.F.World(func(atom ast.Expr) (bool, bool) {
+			atom = ast.Unparen(atom)
+			if sel, ok := atom.(*ast.SelectorExpr); ok && sel.Sel.Name == "Truncated" && objOf(info, sel.X) == resp {
+				return true, true
+			}
+			if be, ok := atom.(*ast.BinaryExpr); ok && errObj != nil && (be.Op == token.EQL || be.Op == token.NEQ) && objOf(info, be.X) == errObj && isNilIdent(info, be.Y) {
+				return be.Op == token.EQL, true
+			}
+			return false, false
+		})
+		redefined := func(q Pt) bool { return q != pt && q.Node() != nil && assignsObj(info, q.Node(), resp) }
+		failsLater := func(q Pt) bool {
+			a2, ok := q.Node().(*ast.AssignStmt)
+			if !ok || q == pt || errObj == nil || len(a2.Lhs) != len(a2.Rhs) {
+				return false
+			}
+			for i, lh := range a2.Lhs {
+				if objOf(info, lh) == errObj && nonNilErrExpr(info, a2.Rhs[i]) {
+					return true
+				}
+			}
+			return false
+		}
+		handsOn := func(q Pt) bool {
+			_, ret := r.F.Exit(q)
+			return ret != nil && len(ret.Results) > 0 && objOf(info, ret.Results[0]) == resp
+		}
+		if path, f := r.F.Reach(Query{From: []Pt{pt}, Target: handsOn, Avoid: func(q Pt) bool { return redefined(q) || failsLater(q) }, AvoidEdge: world}); f {
+			msg = "a reply with the TC bit set is returned as the answer: its answer section is empty or cut while AD can still be set – `authenticated, no TLSA records` is what DANE takes for proof of absence, so a message to an MX whose TLSA RRset does not fit into one datagram is sent without TLS / without a matching certificate: " + r.F.Describe(path)
+		}
+	}
+	c.Hold(rule, "ExtResolver.exchange:truncated-not-used", r.FI.Decl.Pos(), msg == "" && n > 0, msg)
 }
